@@ -145,8 +145,18 @@ class RoundTripStream(Stream):
         p = {'uid': 'a', 'effect': 'allow', 'subjects': [['r', shared]], 'resources': [['r', shared]],
              'actions': [['d', [['k', shared]]]], 'context': [['c', shared]], 'description': 'd', 'tags': ['<', '>']}
         probes = [{'resource': 1, 'action': {'D': [['k', 2]]}, 'subject': 1, 'context': {'D': [['c', 1]]}}]
-        return [{'path': 'sqlite', 'policy': p, 'probes': probes, 'rxtable': [], 'shared': True},
-                {'path': 'json', 'policy': p, 'probes': probes, 'rxtable': [], 'shared': True}]
+        out = [{'path': 'sqlite', 'policy': p, 'probes': probes, 'rxtable': [], 'shared': True},
+               {'path': 'json', 'policy': p, 'probes': probes, 'rxtable': [], 'shared': True}]
+        # a compiled pattern is stored by its source text: whatever else the compiled object carries (flags) must not be
+        # what its meaning hangs on - 'a.b' asked with a line break in the middle, through every path
+        rxm = ['RegexMatch', ['cat', ['chr', 97], ['cat', ['dot'], ['chr', 98]]]]
+        pr = {'uid': 'rx', 'effect': 'allow', 'subjects': [['r', rxm]], 'resources': [['r', ['Any']]],
+              'actions': [['r', ['Not', rxm]]], 'context': [['c', rxm]], 'description': None, 'tags': ['<', '>']}
+        qs = [{'resource': 1, 'action': 'zz', 'subject': s, 'context': {'D': [['c', c]]}}
+              for s, c in (('a\nb', 'axb'), ('axb', 'a\nb'), ('axb', 'axb'))]
+        for path in PATHS:
+            out.append({'path': path, 'policy': pr, 'probes': qs, 'rxtable': [], 'shared': False})
+        return out
 
     def deep(self):
         """deeply nested rules and rule arguments (a serializer with a depth bound or a recursion limit shows here)"""
